@@ -527,6 +527,14 @@ def judge(res, case, rm, task, pl, out):
     if p.errors:
         return tag
 
+    # ---- the command is written for the mpiexec which is installed: a Cray PALS mpiexec (found
+    # under .../pals/...) reads plain host names with --ppn, not Open MPI's `slots=` / Hydra's `host:n` host files
+    # (a rank file is used whenever the installed mpiexec lists -rf)
+    if fam == 'MPIEXEC' and (case.get('answers') or {}).get('mpi') == 'PALS' and \
+            p.mode in ('hostfile_slots', 'hostfile_colon'):
+        fail('syntax_of_other_mpi', 'the installed mpiexec is Cray PALS, the command uses the %s form'
+             % p.mode)
+
     # ---- process count
     if p.procs is None:
         fail('no_process_count', 'command expresses no process count')
